@@ -127,6 +127,7 @@ CHECKS = {
             {"name": NODE + "ZZ_C06_M2", "reach": ["M2 end", "M2 unbonded and re-bonded"], "bound": "2 validators; block 3 = [A1 unbonds its only stake, A1 bonds again] (a ledger item deleted and re-created in one block); replica B serves a CheckTx of a delegation to A1 (symbolic power) at one of 5 positions of that block; blocks 4 and 5 with votes"},
             {"name": NODE + "ZZ_C06_M3", "reach": ["M3 end"], "bound": "2 validators, a contract (STOP or the storage cell) deployed in block 2; replica B serves, at one of 4 positions of block 3 (which carries a contract call or nothing), a CheckTx of a transfer to that contract or of a call of it (symbolic value); blocks 3 and 4 compared"},
             {"name": NODE + "ZZ_C06_M4", "reach": ["M4 end"], "bound": "2 validators; after the empty block 1 replica B serves a CheckTx of a delegation to a validator (symbolic power) or of a validator's unbonding; blocks 2 and 3 carry votes (rewards from the state of version 1): block outputs, application hashes and issued rewards compared"},
+            {"name": NODE + "ZZ_C06_M5", "reach": ["M5 end", "M5 account created in the block"], "bound": "twin replicas, 3 holders + 2 validators; block 2 pays a symbolic amount to a key holder without an account; replica B serves one CheckTx (sent by the new account, or paying it; symbolic amount) between that DeliverTx and Commit; blocks 2-3 compared (hash, committed account records)"},
         ],
         "bounds": "one injected CheckTx/Query in 5 slots, 2 blocks observed (result codes, gas used, validator updates, application hash)",
         "outside": "more than one injected request (one suffices for a first divergence by the unwinding argument of DESIGN section 4/C06); interleavings finer than one ABCI call (the application mutex serialises them); symbolic governance parameters",
